@@ -65,18 +65,16 @@ func ruleSweeperCutoff(c *Check, rule string) {
 		c.Undecided(rule, fnSweepTxn+"/cutoff-variable", "the slice body does not capture exactly one header.Timestamp (the pass-wide cutoff)", pos)
 		return
 	}
-	// stores to the cutoff variable in the parent
-	var stores []*ssa.Store
-	for _, b := range fn.Blocks {
-		for _, in := range b.Instrs {
-			if st, ok := in.(*ssa.Store); ok {
-				if a, ok := st.Addr.(*ssa.Alloc); ok && a.Comment == roles.cutoff {
-					stores = append(stores, st)
-				}
-			}
+	// assignments of the cutoff variable in the parent: one, made before any
+	// loop, or copying a value that was computed before any loop
+	stores := capturedVarStores(fn, cl, roles.cutoff)
+	okOnce := len(stores) == 1
+	for _, st := range stores {
+		if blockInLoop(st.Block()) && !fixedOutsideLoops(st.Val, 0) {
+			okOnce = false
 		}
 	}
-	if len(stores) != 1 || blockInLoop(stores[0].Block()) {
+	if !okOnce {
 		c.Bad(rule, fnSweep+"/cutoff-once", fmt.Sprintf("the sweep cutoff is assigned %d times (or inside a loop); it must be fixed once at the start of the pass, before any slice", len(stores)), pos, nil)
 		return
 	}
@@ -278,15 +276,21 @@ func ruleSweeper(c *Check, rTable, rPrivate, rEffect, rCursor string) {
 
 	// R5: the resume cursor is per DBI (declared inside the DBI loop, outside the slice loop)
 	okCur, nCur := true, 0
-	for _, bk := range sfn.Blocks {
-		for _, in := range bk.Instrs {
-			if al, ok := in.(*ssa.Alloc); ok && (al.Comment == roles.last || al.Comment == roles.limit) {
-				nCur++
-				if loopDepth(bk) != 1 {
-					okCur = false
-					c.Bad(rCursor, fnSweep+"/cursor-scope:"+al.Comment, fmt.Sprintf("the slice resume state %q is not a fresh variable per DBI (loop depth %d): a cursor left over from one DBI would make the next DBI's scan start in the middle", al.Comment, loopDepth(bk)), c.P.InstrPos(in), nil)
-				}
+	for _, nm := range []string{roles.last, roles.limit} {
+		al := capturedVarAlloc(sfn, fn, nm)
+		if al == nil {
+			continue
+		}
+		nCur++
+		preset := false
+		for _, st := range capturedVarStores(sfn, fn, nm) {
+			if k, ok := st.Val.(*ssa.Const); !ok || !(k.Value == nil || k.Value.ExactString() == "false" || k.Value.ExactString() == "0") {
+				preset = true // assigned something other than the zero value outside the slice body
 			}
+		}
+		if loopDepth(al.Block()) != 1 || preset {
+			okCur = false
+			c.Bad(rCursor, fnSweep+"/cursor-scope:"+nm, fmt.Sprintf("the slice resume state %q is not a fresh variable per DBI (loop depth %d, or assigned outside the slice body): a cursor left over from one DBI would make the next DBI's scan start in the middle", nm, loopDepth(al.Block())), c.P.InstrPos(al), nil)
 		}
 	}
 	if nCur != 2 {
